@@ -533,6 +533,74 @@ theorem plus_reload_result_partial (bs : List (ChangeType × Outcome)) (hfresh :
   have := latestErr_is_lastFail true bs init rfl
   simp [HState.failed, hfresh, this]
 
+/-! ### Gateway status writes outside batch processing (NGF front Service upsert / delete callbacks) -/
+
+/-- `failure_surfaces_for_out_of_batch_writes`: after a batch whose apply failed (any applying change type, any failure kind),
+every Gateway status write done outside batch processing — in any later batch that carries an NGF-Service event, whatever
+else it carries, until the next applying batch — uses the failure: NoChange batches in between do not clear it, and the
+write of a batch that itself applies something happens before that apply, so it still uses the failure. -/
+theorem failure_surfaces_for_out_of_batch_writes (plus : Bool) (s : HState) (ct : ChangeType) (o : Outcome)
+    (hct : ct ≠ .noChange) (hfail : applyErr plus ct o = true)
+    (idle : List Outcome) (ct' : ChangeType) (o' : Outcome) :
+    (stepSvc plus (run plus (step plus s ct o).1 (idle.map fun x => (ChangeType.noChange, x))) true ct' o').2.1 = some true := by
+  have hidle : ∀ (l : List Outcome) (t : HState), run plus t (l.map fun x => (ChangeType.noChange, x)) = t := by
+    intro l
+    induction l with
+    | nil => intro t; rfl
+    | cons x xs ih => intro t; simp [run, step, ih]
+  rw [hidle]
+  simp [stepSvc, outOfBatchWrite, (failure_surfaces_for_every_change_type plus s ct o hct hfail).2.1]
+
+/-- … and what such a write says, for every graph summary: nothing is Programmed=True (the Gateway, its listeners, ignored
+Gateways), composed with `reload_failed_nothing_programmed` -/
+theorem out_of_batch_write_after_failure_not_programmed (plus : Bool) (s : HState) (ct : ChangeType) (o : Outcome)
+    (su : Summary) (hct : ct ≠ .noChange) (hfail : applyErr plus ct o = true) (hwf : su.wf = true) :
+    (prepare { su with reloadErr := outOfBatchWrite (step plus s ct o).1 }).noProgrammedTrue = true := by
+  have h : outOfBatchWrite (step plus s ct o).1 = true :=
+    (failure_surfaces_for_every_change_type plus s ct o hct hfail).2.1
+  rw [h]
+  exact reload_failed_nothing_programmed { su with reloadErr := true } rfl (by simpa [Summary.wf] using hwf)
+
+/-- without NGINX Plus an out-of-batch write always uses the truth, for every batch history -/
+theorem out_of_batch_write_is_truth_oss (bs : List (ChangeType × Outcome)) :
+    outOfBatchWrite (run false init bs) = (run false init bs).failed := oss_reload_result_is_truth bs
+
+/-- a batch that only carries the NGF-Service event (NoChange) leaves the Gateway status the callback wrote; a batch that
+applies something overwrites it with its own result -/
+theorem lastGatewayWrite_cases (plus : Bool) (s : HState) (o : Outcome) (ct : ChangeType) (hct : ct ≠ .noChange) :
+    lastGatewayWrite plus s true .noChange o = some s.latestErr ∧ lastGatewayWrite plus s false .noChange o = none ∧
+    lastGatewayWrite plus s true ct o = some (applyErr plus ct o) := by
+  refine ⟨rfl, rfl, ?_⟩
+  cases ct with
+  | noChange => exact absurd rfl hct
+  | endpointsOnly => rfl
+  | clusterState => rfl
+
+/-- REFUTED VARIANT (seeded change C07-r3m1): remembering the by-value result BEFORE the error is recorded in it makes every
+out-of-batch write after a failed apply claim success, for every change type and failure kind — the batch's own statuses (they
+get the result as a parameter) stay right, which is why only the callbacks show it -/
+theorem by_value_before_error_refuted (plus : Bool) (s : HState) (ct : ChangeType) (o : Outcome)
+    (hct : ct ≠ .noChange) (hfail : applyErr plus ct o = true) :
+    (stepStoreBeforeError plus s ct o).2 = some true ∧
+    outOfBatchWrite (stepStoreBeforeError plus s ct o).1 = false ∧
+    (stepStoreBeforeError plus s ct o).1.failed = true ∧
+    outOfBatchWrite (step plus s ct o).1 = true := by
+  have h := failure_surfaces_for_every_change_type plus s ct o hct hfail
+  cases ct with
+  | noChange => exact absurd rfl hct
+  | endpointsOnly =>
+    refine ⟨?_, rfl, ?_, h.2.1⟩
+    · simpa [stepStoreBeforeError] using h.1
+    · simp [stepStoreBeforeError, HState.failed, h.2.2]
+  | clusterState =>
+    refine ⟨?_, rfl, ?_, h.2.1⟩
+    · simpa [stepStoreBeforeError] using h.1
+    · simp [stepStoreBeforeError, HState.failed, h.2.2]
+
+/-- concrete witness: reload fails in a cluster-state batch, then the LoadBalancer address of the NGF Service arrives alone -/
+example : (stepSvc false (step false init .clusterState ⟨true, false, true⟩).1 true .noChange ⟨true, true, true⟩).2.1 = some true ∧
+    outOfBatchWrite (stepStoreBeforeError false init .clusterState ⟨true, false, true⟩).1 = false := by decide
+
 example : (step false init .endpointsOnly ⟨true, false, true⟩).2 = some true := by decide
 example : (step true init .endpointsOnly ⟨true, true, false⟩).2 = some true := by decide
 example : (step false init .clusterState ⟨false, true, true⟩).2 = some true := by decide
